@@ -90,15 +90,15 @@ def word_consts(fb):
     return {'E': e['kEmpty'], 'R': e['kResult']}
 
 
-def check(ctx, fb, rule, f, key, pointer=False):
+def check(ctx, fb, rule, f, key, pointer=False, word='_callback', consts=None):
     """f: a readiness predicate (bool) or pointer-returning observer.  Reports if 'ready' on Empty/Callback."""
     try:
-        consts = word_consts(fb)
-        s = ReadySum(fb, f)
+        consts = consts or word_consts(fb)
+        s = ReadySum(fb, f, word=word)
         paths = s.run(f)
     except Unrecognised as e:
         ctx.broken('R-READY: %s (%s) is outside the recognised forms: %s' % (f.full, f.where, e))
-    if '_callback' not in s.words_read:
+    if word not in s.words_read:
         ctx.broken('R-READY: %s (%s) does not read the completion word: anchor changed' % (f.full, f.where))
     table = {}
     for cls in 'ECR':
